@@ -191,6 +191,8 @@ class DocEngine:
         elif name == "edit":
             op["kind"] = rng.choice(["para", "heading", "list", "table", "image", "meta_title", "meta_user", "meta_keyword", "style", "delete_last"] + (["numlist", "numlist", "foreign_named_range"] if self.prop == "C15" else []), "ekind")
             op["n"] = n
+            if self.prop == "C15" and self._doc_type() == "spreadsheet" and rng.chance(0.25, "fnr?"):
+                op["kind"] = "foreign_named_range"
             subs = sorted(x for x in st.names() if "/" in x and x.rsplit("/", 1)[-1] in ("content.xml", "styles.xml") and not x.startswith("META-INF"))
             if subs and rng.chance(0.5, "subobj?"):
                 op["kind"] = "subobject"
@@ -735,19 +737,29 @@ class DocEngine:
         def do():
             if kind == "foreign_named_range":
                 # a named range as another producer spells it (quoted sheet name, absolute
-                # references, a one-cell range written A1:.A1, base cell elsewhere)
-                from odfdo import Element as _E
+                # references, a one-cell range written A1:.A1, base cell elsewhere). It is put
+                # in at the XML level (lxml + set_part), as if read from a file: no odfdo object
+                # has seen the element before the reading calls do
                 if dtype != "spreadsheet":
                     return "content.xml"
-                body = doc.body
-                cont = body.get_element("table:named-expressions")
+                root = etree.fromstring(doc.content.serialize())
+                sheet = root.find(".//" + xmlref.q("office:spreadsheet"))
+                if sheet is None:
+                    return "content.xml"
+                cont = sheet.find(xmlref.q("table:named-expressions"))
                 if cont is None:
-                    cont = _E.from_tag("<table:named-expressions/>")
-                    body.append(cont)
-                tname = (body.get_tables()[0].name if body.get_tables() else "Sheet1")
-                q = "'" + tname + "'" if n % 2 else tname
-                cont.append(_E.from_tag(f'<table:named-range table:name="fnr{n}" table:base-cell-address="${q}.$C$3" table:cell-range-address="${q}.$A$1:.$A$1"/>'))
-                return "content.xml"
+                    cont = etree.SubElement(sheet, xmlref.q("table:named-expressions"))
+                tabs = sheet.findall(xmlref.q("table:table"))
+                tname = tabs[0].get(xmlref.q("table:name")) if tabs else "Sheet1"
+                qn = "'" + tname + "'" if n % 2 else tname
+                nr = etree.SubElement(cont, xmlref.q("table:named-range"))
+                nr.set(xmlref.q("table:name"), f"fnr{n}")
+                nr.set(xmlref.q("table:base-cell-address"), f"${qn}.$C$3")
+                nr.set(xmlref.q("table:cell-range-address"), f"${qn}.$A$1:.$A$1")
+                data = etree.tostring(root, xml_declaration=True, encoding="UTF-8")
+                doc.set_part("content.xml", data)
+                st.set_part("content.xml", data)
+                return None
             if kind == "numlist":
                 # a numbered list whose numbering comes from styles of this very document
                 from odfdo import Element as _E, ListItem as _LI
@@ -834,7 +846,7 @@ class DocEngine:
         if res == "content.xml+image":
             self._model_add_file_result("Pictures/", IMG1, None)
             st.touched.add("content.xml")
-        else:
+        elif res is not None:
             st.touched.add(res)
         return []
 
